@@ -351,6 +351,71 @@ func runC02(r *Run) {
 		}
 	})
 
+	r.rule("R3b", "a custom constraint is found whatever the letter case of its name: the pattern (and the name in it) is case-folded unless CaseSensitive, so the lookup compares case-insensitively (E5)", func() {
+		ck := r.Fn("", "(*Constraint).CheckConstraint")
+		var exec []callSite
+		for _, c := range callsIn(ck, false) {
+			if c.Common.IsInvoke() && c.Common.Method.Name() == "Execute" {
+				exec = append(exec, c)
+			}
+		}
+		r.need(len(exec) >= 1, "CheckConstraint executes custom constraints")
+		// does registration fold the pattern at all?
+		folds := false
+		withinFunction(r.Fn("", "(*App).register"), func() {
+			for _, c := range callsMatching(r.Fn("", "(*App).register"), false, func(n string) bool { return strings.HasPrefix(n, "github.com/gofiber/utils/v2.ToLower") }) {
+				_ = c
+				folds = true
+			}
+		})
+		if !folds {
+			r.ok("CheckConstraint:custom-name-lookup", r.fpos(ck), "patterns are not case-folded at registration")
+			return
+		}
+		isNameCmp := func(v ssa.Value) (fold bool, ok bool) {
+			usesName := func(x ssa.Value) bool {
+				return dependsOn(x, func(y ssa.Value) bool {
+					if loadOfField(y, "Constraint.Name") {
+						return true
+					}
+					c, isC := y.(*ssa.Call)
+					return isC && c.Call.IsInvoke() && c.Call.Method.Name() == "Name"
+				}) != nil
+			}
+			switch x := v.(type) {
+			case *ssa.Call:
+				if strings.HasSuffix(calleeName(&x.Call), "EqualFold") && len(x.Call.Args) == 2 && usesName(x.Call.Args[0]) && usesName(x.Call.Args[1]) {
+					return true, true
+				}
+			case *ssa.BinOp:
+				if x.Op == token.EQL && usesName(x.X) && usesName(x.Y) {
+					// plain equality is fine only when both sides are folded first
+					f1 := dependsOn(x.X, func(y ssa.Value) bool { c, ok := y.(*ssa.Call); return ok && strings.Contains(calleeName(&c.Call), "ToLower") }) != nil
+					f2 := dependsOn(x.Y, func(y ssa.Value) bool { c, ok := y.(*ssa.Call); return ok && strings.Contains(calleeName(&c.Call), "ToLower") }) != nil
+					return f1 && f2, true
+				}
+			}
+			return false, false
+		}
+		okAll, found := true, false
+		for _, br := range branchesInOne(ck) {
+			fold, isCmp := isNameCmp(stripValue(br.If.Cond))
+			if !isCmp {
+				continue
+			}
+			for _, e := range exec {
+				if dom(br.If.Block().Succs[0], e.Block()) {
+					found = true
+					if !fold {
+						okAll = false
+					}
+				}
+			}
+		}
+		r.check(found && okAll, "CheckConstraint:custom-name-lookup", r.pos(exec[0].Instr), "the custom constraint is selected by a case-insensitive comparison of names",
+			"custom constraints are looked up by exact name although the pattern — and the constraint name in it — is lower-cased at registration unless CaseSensitive is set: a constraint registered as \"isAdmin\" is never found, the parameter falls back to `no constraint` and every value is accepted")
+	})
+
 	// R4 ------------------------------------------------------------------------------
 	r.rule("R4", "required parameters are non-empty; last non-greedy parameter stops at '/'; non-greedy multi-byte search refuses a '/' before the delimiter (E1)", func() {
 		withoutHelpers(func() { // attribution rule: each construct belongs to the one function that contains it
@@ -458,6 +523,44 @@ func runC02(r *Run) {
 				r.check(hit == nil, "findParamLen:slash-in-non-greedy", r.pos(c.Instr),
 					"non-greedy capture containing '/' yields length 0 (no match)", "a non-greedy capture containing '/' can yield a non-zero length")
 			}
+			// every search for the delimiter that ends a parameter — whatever its length — is followed by that slash search
+			// before its position is returned as the length of a non-greedy capture
+			nd := 0
+			for _, d := range callsMatching(fp, false, nameIs("strings.Index", "strings.IndexByte")) {
+				needle := d.Common.Args[1]
+				isDelim := loadOfField(needle, "routeSegment.ComparePart")
+				if ix, ok := stripValue(needle).(*ssa.Index); ok && loadOfField(ix.X, "routeSegment.ComparePart") {
+					isDelim = true
+				}
+				if !isDelim {
+					continue
+				}
+				nd++
+				cutG := map[edge]bool{}
+				for _, br := range branchesIn(fp) {
+					if loadOfField(br.Info.Root, "routeSegment.IsGreedy") {
+						if sl, ok := br.truthSlot(true); ok {
+							cutG[edge{br.If.Block(), sl}] = true
+						}
+					}
+				}
+				dv := d.Value()
+				_, hit := reach(pointAfter(d.Instr), func(in ssa.Instruction) bool {
+					ret, ok := in.(*ssa.Return)
+					return ok && retOperand(ret, 0) == dv
+				}, cutG, func(in ssa.Instruction) bool {
+					for _, sc := range slashIdx {
+						if in == sc.Instr {
+							return true
+						}
+					}
+					return false
+				})
+				r.check(hit == nil, fmt.Sprintf("findParamLen:delimiter-search#%d:slash-checked", nd), r.pos(d.Instr),
+					"for a non-greedy parameter the found position is returned only after the capture was searched for '/'",
+					"the position of the delimiter is returned as the length of a non-greedy capture without looking for a '/' inside it: /:a-:b accepts /x/y-z with a = \"x/y\" — a named parameter spans a path segment boundary")
+			}
+			r.atLeast("delimiter searches in findParamLen", nd, 2)
 		})
 	})
 }
